@@ -24,7 +24,7 @@ use zipora::memory::{MmapVec, MmapVecConfig, MmapVecConfigBuilder};
 mod breadth;
 
 const HEADER: &str = r#"From ZV.Common Require Import Base Run.
-From ZV.C10 Require Import Model ModelValVec32 ModelArena ModelStrVec ModelFixedLen ModelFastVecCopy ModelCases.
+From ZV.C10 Require Import Model ModelValVec32 ModelArena ModelStrVec ModelFixedLen ModelFastVecCopy ModelCacheVec ModelCases.
 Open Scope N_scope.
 "#;
 
@@ -789,6 +789,13 @@ impl<T: Elem> VecApi<T> for CacheAlignedVec<T> {
         else { match self.as_mut_slice().get_mut(i) { Some(s) => { *s = x; R::Unit } None => R::Refused } } }
     fn aux(&self) -> Option<String> { if self.is_empty() != (CacheAlignedVec::len(self) == 0) || CacheAlignedVec::capacity(self) < CacheAlignedVec::len(self) { Some("is_empty / capacity disagree with len".into()) } else { None } }
     fn capacity(&self) -> usize { CacheAlignedVec::capacity(self) }
+    // mechanism model: coq/C10/ModelCacheVec.v (drop-counting elements and one-byte elements)
+    fn coq_cell() -> Option<&'static str> { if T::COUNTED { Some("CacheAlignedVec<El>") } else if std::mem::size_of::<T>() == 1 { Some("CacheAlignedVec<u8>") } else { None } }
+    fn coq_head(cap0: usize, _cap_init: usize) -> String { format!("CCav {} {} {}", T::COUNTED, std::mem::size_of::<T>(), cap0) }
+    fn coq_op(code: u64, a: usize, _b: usize, vals: &[u64], _cap_after: usize) -> Option<String> {
+        Some(match code { 0 => format!("APush {}", vals[0]), 1 => "APop".into(), 5 => "AClear".into(), 8 => format!("AReserve {}", a), 9 => format!("AGet {}", a),
+                          12 => format!("ATruncate {}", a), _ => return None })
+    }
 }
 struct Layout64(zipora::memory::cache_layout::CacheAlignedVec<u64>);
 impl VecApi<u64> for Layout64 {
@@ -825,6 +832,12 @@ impl VecApi<El> for Bump {
     fn write_alt(&mut self, i: usize, x: El, _variant: u64) -> R<El> { match self.0.as_mut_slice().get_mut(i) { Some(s) => { *s = x; R::Unit } None => R::Refused } }
     fn aux(&self) -> Option<String> { if self.0.capacity() != self.1 || self.0.is_empty() != (self.0.len() == 0) { Some(format!("capacity() = {} for a BumpVec of capacity {}", self.0.capacity(), self.1)) } else { None } }
     fn capacity(&self) -> usize { self.0.capacity() }
+    // mechanism model: coq/C10/ModelCacheVec.v
+    fn coq_cell() -> Option<&'static str> { Some("BumpVec<El>") }
+    fn coq_head(cap0: usize, _cap_init: usize) -> String { format!("CBump {}", cap0.max(1)) }
+    fn coq_op(code: u64, a: usize, _b: usize, vals: &[u64], _cap_after: usize) -> Option<String> {
+        Some(match code { 0 => format!("BPush {}", vals[0]), 1 => "BPop".into(), 9 => format!("BGet {}", a), _ => return None })
+    }
 }
 
 // ----- MmapVec -----
@@ -1785,7 +1798,8 @@ fn run_inner(args: &Args) {
     // shares of the Coq budget (quick: 1500 cases in total), per M+S cell
     let k = if args.thorough { 6 } else { 1 };
     for (c, n) in [("AutoGrowCircularQueue", 750), ("FixedCircularQueue", 100), ("FastVec<El>", 150), ("ValVec32<El>", 120), ("ValVec32<u64>", 80),
-                   ("FastVec<u64>", 80), ("FastVec<u8>", 80), ("SortableStrVec", 80), ("FixedLenStrVec", 60)] {
+                   ("FastVec<u64>", 80), ("FastVec<u8>", 80), ("SortableStrVec", 80), ("FixedLenStrVec", 60),
+                   ("CacheAlignedVec<El>", 40), ("CacheAlignedVec<u8>", 30), ("BumpVec<El>", 30)] {
         cx.budgets.insert(c, (0, n * k));
     }
     for c in ["AutoGrowCircularQueue", "FixedCircularQueue", "FastVec<El>"] { cx.sum.cell_status(c, "M+S"); }
